@@ -59,6 +59,7 @@ func init() {
 				if g.Bool(0.3) {
 					sc.SetInt("delay", 0)
 					sc.SetInt("cancel", g.Range(1, n)) // the context is cancelled inside attempt #cancel (1-based)
+					sc.SetInt("deadline", g.Intn(2))   // ... or its deadline expires there (Err() is DeadlineExceeded)
 				}
 				// the script of the last attempt is replayed for further attempts: make it end the loop
 				att[len(att)-1] = genAttempt(g, 10*n, "C", timed)
@@ -219,6 +220,16 @@ func c15Model(sc *Scn) (out []N, attempts int) {
 	panic("c15 model: " + sc.Sub)
 }
 
+// c15Expired is a context whose end is reported the way an expired deadline is.
+type c15Expired struct{ context.Context }
+
+func (c c15Expired) Err() error {
+	if c.Context.Err() != nil {
+		return context.DeadlineExceeded
+	}
+	return nil
+}
+
 func runC15(e *Env) {
 	sc := e.Sc
 	multi := sc.Sub == "Retry" || sc.Sub == "RepeatWith" || sc.Sub == "DoWhile" || sc.Sub == "While"
@@ -278,6 +289,9 @@ func runC15(e *Env) {
 	if k := sc.Int("cancel", 0); k > 0 && sc.Sub == "Retry" {
 		c, cancel := simcontext.WithCancel(context.Background())
 		ctx = c
+		if sc.Int("deadline", 0) == 1 {
+			ctx = c15Expired{c}
+		}
 		srcs[0].SubHook = func(n int) {
 			if n == k-1 {
 				cancel()
